@@ -86,6 +86,22 @@ example : keyMaxSize tyOptKey16 = some 16 ∧
     (handle Cfg.fixed tyOptKey16 (.struct [.num 1, .num 2, .absent])).toOption =
       some [0, 0, 0, 0, 0, 0, 0, 1, 0, 0, 0, 0, 0, 0, 0, 2] := by decide +kernel
 
+/-- **C12, the key serialization of a structure-typed key member is that of its whole value**: the key flags inside the
+    type of a KEY member do not enter the key holder, the key serialization, the key hash or the outcome of the real
+    function - for every keyed structure type and value (`normKeys` clears them). -/
+theorem C12_key_struct_member_not_flattened (cfg : Cfg) (x : Ext) (ms : KMs) (v : Val) :
+    keyHolder (.struct x (normKeys ms)) v = keyHolder (.struct x ms) v ∧
+    keyBytes cfg (.struct x (normKeys ms)) v = keyBytes cfg (.struct x ms) v ∧
+    handle cfg (.struct x (normKeys ms)) v = handle cfg (.struct x ms) v ∧
+    handleOutcome cfg (.struct x (normKeys ms)) v = handleOutcome cfg (.struct x ms) v := by
+  obtain ⟨_, hp, hh, ho⟩ := C11_key_struct_member_not_flattened cfg x ms v
+  refine ⟨?_, ?_, hh, ho⟩
+  · simp only [keyHolder, hp]
+  · simp only [keyBytes, keyHolder, hp]
+
+/-- the key of `Sensor` (see `tySensor`) has the fixed size 9 (u32, u32, u8): padded, never hashed -/
+example : keyMaxSize tySensor = some 9 := by decide +kernel
+
 def tyKeyStr : KTy := .struct .final (.cons 0 false false true .str (.cons 1 false false false (.prim .u32) .nil))
 /-- D16: an (unbounded) string key: the maximum serialized size of the key is not bounded by 16, so the key hash has to
     be the MD5 digest for every value; the code zero-pads the key `"ab"` (7 bytes: `00 00 00 03 61 62 00`) because its
